@@ -293,5 +293,5 @@ fn oracle(c: &LjCase, rec: &Rec, ctx: &Ctx) -> Result<(), String> {
 }
 
 pub fn parts() -> Vec<PartDef> {
-    vec![part("states", 300_000, 10_000_000, strat, oracle)]
+    vec![part("states", 600_000, 12_000_000, strat, oracle)]
 }
